@@ -3,5 +3,6 @@ import EdzedProofs.Counter
 import EdzedProofs.DataLemmas
 import EdzedProofs.ErrorReg
 import EdzedProofs.Filters
+import EdzedProofs.Output
 import EdzedProofs.Simulate
 import EdzedProofs.Validate
